@@ -618,6 +618,43 @@ def real_output_code(env, tsrc):
     return ("E", "shape")
 
 
+def model_value_py(c):
+    """canonical model value (canon_model) -> the Python value it denotes; ValueError outside ints / bools / None / strings /
+    Markup / lists / tuples / dicts"""
+    t = c[0]
+    if t == "n":
+        return None
+    if t == "i" and c[1] != "BIG":
+        return c[1]
+    if t == "b":
+        return c[1]
+    if t == "s":
+        return c[1]
+    if t == "m":
+        return _markup()(c[1])
+    if t == "l":
+        return [model_value_py(x) for x in c[1]]
+    if t == "t":
+        return tuple(model_value_py(x) for x in c[1])
+    if t == "d":
+        return {model_value_py(k): model_value_py(v) for k, v in c[1]}
+    raise ValueError(c)
+
+
+def constant_text_agrees(fold, gen, real_code):
+    """K-gen normal form for a constant the model KNOWS (fold line 'K <value> | ...') but cannot PRINT (repr of strings
+    containing quotes, ...): by construction its output_child falls back to run-time code (the constant as a display, or
+    with optimized=False the unfolded expression), while the engine writes str(constant) into the template data.  Both
+    agree iff str() of the model's constant is the engine's text.  True / False, or None when this does not apply."""
+    if not (fold.startswith("K") and gen.startswith("X ") and real_code[0] == "C"):
+        return None
+    try:
+        value = model_value_py(canon_model(parse_sx(fold.split(" | ")[0][2:])[0]))
+    except (ValueError, IndexError, RecursionError, TypeError):
+        return None
+    return str(value) == real_code[1]
+
+
 # ------------------------------------------------------------------ generators
 STR_POOL = ["", "a", "ab", "<b>", "x&y", "q'r"]
 INT_POOL = [0, 1, 2, 3, 7, -1, -4]
